@@ -21,7 +21,8 @@ from harness import common, sysdrv, sysreplay, tlc, trace
 
 CLAUSES = {
     "C03": {"P_PinFree", "P_EnsIdle", "P_PathsIdle", "P_LocksExact", "P_Holds", "P_NonZero", "P_ZeroSwapAtomic",
-            "P_Engines", "P_Folder", "P_Conserve", "C_JobMatches", "C_Unlock", "C_BusyUntouched", "C_ListedAreBusy"},
+            "P_Engines", "P_Folder", "P_Conserve", "C_JobMatches", "C_Unlock", "C_BusyUntouched", "C_ListedAreBusy",
+            "C_LockedList", "P_LockedList"},      # `locked`, the list of jobs in flight, is part of "exactly those are marked busy"
     "C05": {"I_Fresh", "I_Diagonal", "I_CanDraw", "P_Support", "C_Sorted", "C_CanDraw", "C_Live", "C_Numbering",
             "C_NewValid", "C_MinusStays", "C_WeightsStable", "C_Record", "R_HasRecord", "R_Restore", "R_Weights",
             "R_Sorted"},
@@ -136,8 +137,17 @@ def _random_job(args):
     kw = dict(spec)
     n, w = kw.pop("n"), kw.pop("workers")
     steps, seed, sched = kw.pop("steps"), kw.pop("seed"), kw.pop("sched_seed")
+    if "plan" in kw:
+        kw["plan"] = [tuple(x) for x in kw["plan"]]
     events, info = sysreplay.random_run(root, n, w, steps, seed, sched, **kw)
     sysreplay.sysdrv.cleanup(root)
+    if any(op[0] == "renumber" for op in kw.get("plan", ())):
+        # the restart file was edited between the lifetimes (live paths renumbered): what follows the restart is judged as an
+        # execution of its own, starting from what that restart found on disk
+        k = next((i for i, e in enumerate(events) if e["ev"] == "Restart"), None)
+        events = events[k:] if k is not None else []
+        if events:
+            events[0]["clean"] = False
     enc = trace.encode_trace(events) if events else []
     return idx, enc, info
 
@@ -367,6 +377,21 @@ class SystemCheck:
         common.rmtree(self.work)
         self.chk.cov["system_stats"] = self.stats
         return self.chk.finish(rule, explanation)
+
+
+RENUMBER = [21, 211, 212, 213, 22, 221, 214, 215, 23, 231]     # numbers that contain one another as strings, live together
+
+
+def renumbered_specs(seed, count, n_values=(4, 5, 6)):
+    """Runs that are killed early and continue from a restart file whose live paths carry numbers like 21 and 211."""
+    rnd = random.Random(seed)
+    specs = []
+    for i in range(count):
+        n = n_values[i % len(n_values)]
+        w = rnd.randrange(2, n)
+        specs.append({"n": n, "workers": w, "steps": 24, "seed": rnd.randrange(10 ** 6), "sched_seed": rnd.randrange(10 ** 6),
+                      "plan": [("kill", rnd.randrange(1, 4), rnd.random() < 0.5), ("renumber", RENUMBER), ("kill", rnd.randrange(6, 12), False)]})
+    return specs
 
 
 def standard_random_specs(tier, seed, n_list, workers_of, steps, count, restarts=False, moves_mix=False):
